@@ -39,7 +39,8 @@ class ClipCallback(object):
 
     def __call__(self, ode_sys):
         from desolver import backend as D
-        ode_sys.dt = D.ar_numpy.clip(ode_sys.dt, min=self.min_step, max=self.max_step)
+        # what a user of the object API does to keep |dt| within [min_step, max_step], whichever way the system is integrating
+        ode_sys.dt = D.ar_numpy.sign(ode_sys.dt) * D.ar_numpy.clip(D.ar_numpy.abs(ode_sys.dt), min=self.min_step, max=self.max_step)
 
 
 class FacadeWorld(World):
@@ -169,10 +170,10 @@ class C18(Prop):
     thorough = {"seeds": 50000, "wall_cap": 1500, "chunk": 32}
     rule = ("one case = one seeded call of solve_ivp (method by registered name/alias or by class, all families; state shapes (n,), (n,m), (n,1,m); args "
             "tuples of 0-3 constants bound by position; t_eval None / subsets with or without the end points, unsorted, with repeats; dense_output; "
-            "events; first_step; max_step; tolerances; the right-hand side as a plain function or already wrapped with a hooked analytic Jacobian; forward spans of any sign) run in world A, and in world B the object API driven with the op "
+            "events; first_step; max_step; tolerances; the right-hand side as a plain function or already wrapped with a hooked analytic Jacobian; spans of any sign, forward and (30%) backward) run in world A, and in world B the object API driven with the op "
             "sequence the facade performs under the SAME simulated peers; 15% of cases inject an rhs fault at the same global call index in both worlds. "
             "Closed-form problems are additionally compared with scipy.integrate.solve_ivp.  Non-trivial = at least one recorded step")
-    assumptions = ["forward spans only (the statement does not quantify over direction)",
+    assumptions = ["on a decreasing span t_eval is returned sorted along the direction of integration (scipy's convention); first_step and max_step are magnitudes",
                    "world B mirrors the facade's documented behaviour: dt = min(first_step, max_step), method set after construction, a dt-clipping callback "
                    "when max_step is given, one integrate(t) per sorted t_eval entry",
                    "scipy parity: both within 200*(atol+rtol*|y|)*steps*amplification of each other (RK45-class methods on closed-form problems)"]
@@ -180,7 +181,8 @@ class C18(Prop):
     def generate(self, seed, tier):
         r = gen.sub(seed, "ops")
         fams = r.choice([gen.CHEAP_FAMS, gen.CHEAP_FAMS, gen.ALL_FAMS])
-        scn, direction = gen.base_scenario(seed, "C18", fams, direction=1, max_steps=16, length=gen.rnd(r, 0.6, 2.5, 3),
+        rdir_ = gen.sub(seed, "direction")
+        scn, direction = gen.base_scenario(seed, "C18", fams, direction=1 if rdir_.random() < 0.7 else -1, max_steps=16, length=gen.rnd(r, 0.6, 2.5, 3),
                                            want={"exact"} if r.random() < 0.5 else None)
         s = scn["system"]
         if gen.gen_is_slow(s["method"]) or s["method"].startswith("Rich:"):
@@ -235,7 +237,7 @@ class C18(Prop):
             facade["wrapped_jac"] = True
         scn["facade"] = facade
         s["constants"] = {} if not args else {k: v for k, v in zip(names, args)}
-        scn["ops"] = [{"op": "integrate"}] if t_eval is None else [{"op": "integrate", "t": t} for t in sorted(t_eval)]
+        scn["ops"] = [{"op": "integrate"}] if t_eval is None else [{"op": "integrate", "t": t} for t in sorted(t_eval, reverse=direction < 0)]
         scn["knobs"] = {}
         rf = gen.sub(seed, "faults")
         if t_eval is None and rf.random() < 0.15:
@@ -268,7 +270,8 @@ class C18(Prop):
         sb["faults"] = [dict(fl, at=fl["at"] - 1) for fl in scn.get("faults", []) if fl["at"] > 1]
         # the op sequence the facade performs follows from its arguments alone (keeps minimised replays self-consistent)
         te_ = scn["facade"].get("t_eval")
-        sb["ops"] = [{"op": "integrate"}] if te_ is None else [{"op": "integrate", "t": t_} for t_ in sorted(te_)]
+        backward = scn["system"]["tf"] < scn["system"]["t0"]
+        sb["ops"] = [{"op": "integrate"}] if te_ is None else [{"op": "integrate", "t": t_} for t_ in sorted(te_, reverse=backward)]
         B = ObjectWorld(sb, monitors=[])
         B.run()
         absorb(res, B)
@@ -276,6 +279,13 @@ class C18(Prop):
         res["state_keys"] = self.state_keys(scn, A)
         fa = scn["facade"]
         bs = B.snaps[-1]
+        if te_ is not None:
+            lo_, hi_ = sorted((scn["system"]["t0"], scn["system"]["tf"]))
+            if any(not (lo_ <= t_ <= hi_) for t_ in te_):
+                # output times outside the span (the generator never asks for them, a minimised replay may): rejecting them is right
+                if A.exc is None:
+                    bad("t_eval_times", "t_eval reaches outside t_span and was accepted")
+                return A
         if A.exc is not None or any(s_["exc"] is not None for s_ in B.snaps):
             be = [s_["exc"] for s_ in B.snaps if s_["exc"] is not None]
             if A.exc is None or not be:
@@ -305,6 +315,8 @@ class C18(Prop):
                 bad("starts_at_y0", "first column is not the initial condition")
         else:
             want_t = np.sort(np.asarray(fa["t_eval"], dtype=dtype))
+            if backward:
+                want_t = want_t[::-1]
             if nt != len(want_t):
                 bad("t_eval_times", "%d times returned for %d t_eval entries" % (nt, len(want_t)))
                 return A
@@ -390,7 +402,10 @@ class C18(Prop):
                 te = None if fa.get("t_eval") is None else np.sort(np.asarray(fa["t_eval"], dtype=np.float64))
                 inv = None
                 if te is not None:
-                    te, inv = np.unique(te, return_inverse=True)        # scipy wants strictly increasing t_eval
+                    te, inv = np.unique(te, return_inverse=True)        # scipy wants strictly monotone t_eval, along the direction of the span
+                    if backward:
+                        inv = (len(te) - 1 - inv)[::-1]
+                        te = te[::-1]
                 sc = scipy.integrate.solve_ivp(f_sc, (float(tt[0]), float(scn["system"]["tf"])), y0.reshape(-1), method="RK45", rtol=max(rtol, 1e-12), atol=atol, t_eval=te)
                 if sc.success:
                     if te is not None:
